@@ -181,7 +181,7 @@ func checkC15(c *Ctx) {
 	// ---- export-own-state ------------------------------------------------------------------------
 	// what is exported is the module's own store: an export that consults staking or bank state (is the validator
 	// still bonded? does the account still exist?) leaves out entries the running chain still holds
-	r.Min("C15.export-own-state", 2)
+	r.Min("C15.export-own-state", 3)
 	nForeign := 0
 	for _, fn := range sortedFuncs(expReach) {
 		if p.L.IsGenerated(fn.Pos()) || !p.IsModule(fn) {
@@ -260,6 +260,59 @@ func checkC15(c *Ctx) {
 		}
 		r.Check(okAll, "C15.export-own-state", "every-chain:"+fname(ef), where, "every chain visited by the export loop gets its state appended",
 			"the export loop can skip a chain (a path returns to the loop header without appending the chain's state): that chain restarts without its event cursors, pool and delegate keys")
+	}
+
+	// ---- no aliased loop variable in export / import ---------------------------------------------
+	// (the module is built with pre-1.22 loop semantics: one variable for all iterations) taking the address of
+	// a loop variable and keeping it makes every kept pointer refer to the last element
+	gen := map[*ssa.Function]bool{}
+	for f := range expReach {
+		gen[f] = true
+	}
+	for f := range impReach {
+		gen[f] = true
+	}
+	nAlias := 0
+	for _, f := range sortedFuncs(gen) {
+		if p.L.IsGenerated(f.Pos()) || !p.IsModule(f) {
+			continue
+		}
+		for _, a := range allocsIn(f) {
+			if !a.Heap {
+				continue
+			}
+			// written inside a cycle that does not contain the allocation
+			var loopStore *ssa.Store
+			for _, ref := range *a.Referrers() {
+				if st, ok := ref.(*ssa.Store); ok && st.Addr == ssa.Value(a) {
+					if reachFromTo2(st.Block(), st.Block()) && !reachFromTo2(st.Block(), a.Block()) {
+						loopStore = st
+					}
+				}
+			}
+			if loopStore == nil {
+				continue
+			}
+			// ... and its address is kept in that cycle
+			for _, ref := range *a.Referrers() {
+				kept := false
+				switch x := ref.(type) {
+				case *ssa.Store:
+					kept = x.Val == ssa.Value(a)
+				case *ssa.MakeInterface:
+					kept = true
+				case *ssa.MapUpdate:
+					kept = x.Value == ssa.Value(a)
+				}
+				if kept && reachFromTo2(ref.Block(), ref.Block()) && !reachFromTo2(ref.Block(), a.Block()) {
+					nAlias++
+					r.Bad("C15.export-own-state", "loopvar:"+fname(f)+":"+a.Comment, c.pos(ref), "the address of the loop variable "+a.Comment+" is kept across iterations (one variable for the whole loop): every kept pointer ends up referring to the last element, so the state of all but one chain / entry is lost")
+				}
+			}
+		}
+	}
+	if nAlias == 0 {
+		r.Ok("C15.export-own-state", "loopvar", "-", "no address of a loop variable is kept in export / import code")
 	}
 
 	// ---- faithful-import -------------------------------------------------------------------------
@@ -583,4 +636,15 @@ func (c *Ctx) checkUnconditionalImport(imp *ssa.Function, minN int) {
 	if n < minN {
 		r.Undecided("C15.faithful-import", "unconditional:"+fname(imp), p.Pos(imp.Pos()), sprintf("only %d import writes recognised, expected at least %d", n, minN))
 	}
+}
+
+
+// reachFromTo2: to is reachable from a successor of from (from == to asks whether the block lies on a cycle).
+func reachFromTo2(from, to *ssa.BasicBlock) bool {
+	for _, s := range from.Succs {
+		if reachFromTo(s, to) {
+			return true
+		}
+	}
+	return false
 }
